@@ -581,10 +581,11 @@ impl ProtectedHeader {
         grease_quic_bit: bool,
     ) -> Result<Self, PacketDecodeError> {
         let first = buf.get::<u8>()?;
-        if !grease_quic_bit && first & FIXED_BIT == 0 {
-            return Err(PacketDecodeError::InvalidHeader("fixed bit unset"));
-        }
+        let fixed_bit_valid = grease_quic_bit || first & FIXED_BIT != 0;
         if first & LONG_HEADER_FORM == 0 {
+            if !fixed_bit_valid {
+                return Err(PacketDecodeError::InvalidHeader("fixed bit unset"));
+            }
             let spin = first & SPIN_BIT != 0;
 
             Ok(Self::Short {
@@ -601,12 +602,18 @@ impl ProtectedHeader {
 
             // TODO: Support long CIDs for compatibility with future QUIC versions
             if version == 0 {
+                // The low seven bits of a Version Negotiation packet are unused and must be
+                // ignored, including the one in the position of the fixed bit
                 let random = first & !LONG_HEADER_FORM;
                 return Ok(Self::VersionNegotiate {
                     random,
                     dst_cid,
                     src_cid,
                 });
+            }
+
+            if !fixed_bit_valid {
+                return Err(PacketDecodeError::InvalidHeader("fixed bit unset"));
             }
 
             if !supported_versions.contains(&version) {
